@@ -19,6 +19,7 @@
 import XsVerif.Model.Limits
 import XsVerif.Lemmas.Limits
 import XsVerif.Lemmas.Modes
+import XsVerif.Lemmas.RaisePolicy
 import XsVerif.Generated.C11
 
 namespace XsVerif.Props.C11
@@ -206,6 +207,207 @@ theorem handlers_cover_counterexample_assert :
     catches ["ElementPathError"] io = false ∧ catches ["ElementPathError"] ve = false ∧
     catches ["ElementPathError", "ValueError", "ArithmeticError"] io = true ∧
     catches ["ElementPathError", "ValueError", "ArithmeticError"] ve = true := by decide
+
+/-! ### the error-collection policy over every `raise` statement of the validators
+
+  Clause: "lax mode never raises for invalid content".  `raiseSites` is regenerated from the AST of
+  xmlschema/validators on every run; `RaisePolicy.policy` is the hand-maintained classification.
+  Hypotheses of the property, under which `fire` is stated: a BUILT schema, a document given to
+  the documented entry points with well-typed arguments.  The harness observes every raise of the
+  package during the fuzz run and compares it with `fire` (a `silent` site that fires, a `collected`
+  site whose exception leaves a lax / skip entry point: the tie is broken). -/
+
+open XsVerif.RaisePolicy in
+/-- the sites of the regenerated table with the kind that the walk along the hand table gives them -/
+def classified : List (RaiseSite × Kind) :=
+  match classifyAll raiseSites policy with
+  | some l => l
+  | none => []
+
+open XsVerif.RaisePolicy in
+/-- **every `raise` statement is classified, and the hand table matches the source exactly**: the
+    walk succeeds — every statement that is not enclosed by `if validation == 'strict'` has an entry
+    for its (function, class), every entry lists exactly as many statements as the source has, no
+    entry is left over — and the classified list is the whole regenerated table, in order.
+    A `raise` added to the code, moved to another function or removed breaks this until `policy`
+    is updated. -/
+theorem raise_sites_classified :
+    classifyAll raiseSites policy = some classified ∧ classified.map Prod.fst = raiseSites := by
+  have h : classifyAll raiseSites policy = some classified := by decide +kernel
+  exact ⟨h, classifyAll_fst _ _ _ h⟩
+
+open XsVerif.RaisePolicy in
+/-- a site is treated as strict-guarded exactly when the AST says `if validation == 'strict'`
+    encloses it: the hand table cannot declare a site strict-guarded. -/
+theorem strict_guard_kind_iff : ∀ x ∈ classified, (x.2 = Kind.strictGuard ↔ x.1.guard = Guard.strict) :=
+  classifyAll_strict raiseSites policy classified raise_sites_classified.1 (by decide +kernel)
+
+open XsVerif.RaisePolicy in
+/-- **site level**: no site is of kind `content`; hence in lax and in skip mode every `raise`
+    statement of the validators either does nothing, or hands its error to raise_or_collect, or is
+    a resource / stop site (XMLSchemaModelDepthError, XMLSchemaStopValidation).
+    Full statement of the clause over the table — no `_partial` needed: the table has no violating site. -/
+theorem lax_skip_sites_never_raise_for_content :
+    ∀ x ∈ classified, ∀ m, m ≠ Modes.Mode.strict →
+      fire x.2 x.1.guard m = .silent ∨ fire x.2 x.1.guard m = .collected ∨ x.2.resourceOrStop = true := by
+  have hc : ∀ x ∈ classified, x.2 ≠ Kind.content := by decide +kernel
+  intro x hx m hm
+  cases hf : fire x.2 x.1.guard m with
+  | silent => exact Or.inl rfl
+  | collected => exact Or.inr (Or.inl rfl)
+  | escapes =>
+    rcases fire_escapes_not_strict x.2 x.1.guard m hm hf with h | h
+    · exact Or.inr (Or.inr h)
+    · exact absurd h (hc x hx)
+
+open XsVerif.RaisePolicy in
+/-- the `Reached` record of a classified site, possibly inside a sub-descent run in a literal mode -/
+def reachedOf (x : RaiseSite × Kind) (nested : Option Modes.Mode) : Reached := ⟨x.2, x.1.guard, x.1.cls, nested⟩
+
+/-- **mode switches are shielded**: every call of the descent that starts a sub-descent in the literal
+    mode 'strict' (the member trials of XsdUnion.raw_decode / raw_encode, text_is_valid, the
+    enumeration values) sits under a handler that catches XMLSchemaValidationError — the only
+    exception is `validate()`, which IS the strict entry point.  This is what `fireAt` assumes for
+    a site reached inside such a sub-descent. -/
+theorem mode_switches_are_shielded :
+    ∀ w ∈ modeSwitches, w.mode = "strict" → w.func ≠ "schemas:XMLSchemaBase.validate" →
+      ∃ c, lookup "XMLSchemaValidationError" = some c ∧ catches w.handlers c = true := by decide +kernel
+
+example : (modeSwitches.filter (·.mode == "strict")).length ≥ 3 := by decide
+
+open XsVerif.RaisePolicy in
+/-- **descent level**, for EVERY sequence of sites of the table that a descent may reach, in any
+    order and with any repetitions: in lax and skip mode the descent either ends normally or is
+    ended by a resource / stop site. -/
+theorem lax_skip_descent_raises_only_limits (script : List Reached)
+    (h : ∀ r ∈ script, ∃ x ∈ classified, ∃ n, reachedOf x n = r) (m : Modes.Mode) (hm : m ≠ .strict) :
+    (run m script).raised = none ∨
+      ∃ r ∈ script, (run m script).raised = some r ∧ r.kind.resourceOrStop = true := by
+  cases hr : (run m script).raised with
+  | none => exact Or.inl rfl
+  | some r =>
+    refine Or.inr ⟨r, (run_raised_mem m script r hr).1, rfl, ?_⟩
+    obtain ⟨x, hx, n, hrx⟩ := h r (run_raised_mem m script r hr).1
+    have hf := (run_raised_mem m script r hr).2
+    subst hrx
+    rcases fireAt_escapes_not_strict m _ hm hf with h1 | h1
+    · exact h1
+    · have hc : ∀ x ∈ classified, x.2 ≠ Kind.content := by decide +kernel
+      exact absurd h1 (hc x hx)
+
+open XsVerif.RaisePolicy in
+/-- skip mode collects nothing, whatever is reached -/
+theorem skip_descent_collects_nothing (script : List Reached) : (run .skip script).collected = [] :=
+  run_skip_collects_nothing script
+
+open XsVerif.RaisePolicy in
+/-- what may leave a lax / skip entry point is an exception of the library hierarchy: the class of
+    every resource / stop site is in the regenerated hierarchy table below `XMLSchemaException` -/
+theorem lax_escaping_sites_are_library_errors :
+    ∀ x ∈ classified, x.2.resourceOrStop = true →
+      ∃ c, lookup x.1.cls = some c ∧ classify (some c) = .libraryError := by decide +kernel
+
+open XsVerif.RaisePolicy in
+/-- the only statement through which collected validation errors are raised is strict-guarded:
+    `raise error` in raise_or_collect (validation.py:228) does nothing outside strict mode -/
+theorem raise_or_collect_is_strict_guarded :
+    ∃ x ∈ classified, x.1.key = "validation:ValidationContext.raise_or_collect:<var:error>" ∧
+      x.1.guard = .strict ∧ ∀ m, m ≠ Modes.Mode.strict → fire x.2 x.1.guard m = .silent := by
+  refine ⟨(⟨"validation:ValidationContext.raise_or_collect:<var:error>", 0, "<var:error>", .strict, true⟩, .strictGuard),
+    by decide +kernel, rfl, rfl, ?_⟩
+  intro m hm
+  exact fire_strict_guard _ m hm
+
+open XsVerif.RaisePolicy in
+/-- non-vacuity: the table has reachable sites of the interesting kinds, a lax descent over a facet
+    failure, a strict-guarded raise and a model-depth error collects the first, ignores the second
+    and is ended by the third; in strict mode a descent is ended by the strict-guarded raise of raise_or_collect. -/
+example : (raiseSites.filter (·.reachable)).length ≥ 100 ∧ policy.length ≥ 100 ∧ classified.length = raiseSites.length ∧
+    (classified.filter (·.2 == .caught)).length ≥ 40 ∧ (classified.filter (·.2.resourceOrStop)).length ≥ 5 ∧
+    run .lax [⟨.caught, .none, "XMLSchemaValidationError", none⟩, ⟨.strictGuard, .strict, "<var:error>", none⟩,
+              ⟨.limit, .none, "XMLSchemaModelDepthError", none⟩, ⟨.caught, .none, "XMLSchemaValidationError", none⟩]
+      = ⟨["XMLSchemaValidationError"], some ⟨.limit, .none, "XMLSchemaModelDepthError", none⟩⟩ ∧
+    run .lax [⟨.caught, .none, "XMLSchemaValidationError", none⟩, ⟨.buildTime, .none, "XMLSchemaValueError", none⟩]
+      = ⟨["XMLSchemaValidationError"], none⟩ ∧
+    -- a union member trial in a lax run: the strict-guarded raise of raise_or_collect fires in the sub-descent and is caught
+    run .lax [⟨.caught, .none, "ValueError", some .strict⟩, ⟨.strictGuard, .strict, "<var:error>", some .strict⟩,
+              ⟨.caught, .none, "XMLSchemaValidationError", none⟩] = ⟨["XMLSchemaValidationError"], none⟩ ∧
+    (run .strict [⟨.caught, .none, "XMLSchemaValidationError", none⟩, ⟨.strictGuard, .strict, "<var:error>", none⟩,
+                  ⟨.limit, .none, "XMLSchemaModelDepthError", none⟩]).raised
+      = some ⟨.strictGuard, .strict, "<var:error>", none⟩ := by decide +kernel
+
+/-! ### interpreter frames of the recursive descent (findings C11-F2 / C11-F16)
+
+  Full statement of the clause "documents within the limits are processed" for the descent:
+    `∀ f, f.depth ≤ L → f.size ≤ E → processExc g L E free tail f = none`
+  — false for the code: the descent needs two interpreter frames per level and the default recursion
+  limit (1000) is smaller than 2 · MAX_XML_DEPTH.  Proved with the explicit frame guard, with the
+  counter-example, and — for the repaired descent — that what is raised instead is the documented
+  resource error, never a foreign exception. -/
+
+/-- **frame arithmetic of the descent**, for every forest: it fits iff `2·depth + tail ≤ free`. -/
+theorem descent_frames_spec (tail : Nat) (f : Forest) (free : Int) :
+    descendFits tail f free = true ↔ (2 * f.depth + tail : Int) ≤ free := descendFits_iff tail f free
+
+theorem within_limits_processed_partial (g : Bool) (L E tail : Nat) (free : Int) (f : Forest)
+    (hd : f.depth ≤ L) (hs : f.size ≤ E) (hfr : (2 * f.depth + tail : Int) ≤ free) :
+    processExc g L E free tail f = none := by
+  unfold processExc
+  rw [(eager_limit_spec L E f).2 ⟨hd, hs⟩]
+  simp [(descendFits_iff tail f free).2 hfr]
+
+/-- a chain of 4 elements is within MAX_XML_DEPTH = 10 but does not fit into 7 free frames: it is
+    not processed — with the repaired descent it is refused with the resource error (C11-F16), with
+    the descent as pinned a RecursionError escapes (C11-F2). -/
+theorem within_limits_processed_counterexample :
+    let chain4 := Forest.cons 0 (.cons 0 (.cons 0 (.cons 0 (.nil 0) (.nil 0)) (.nil 0)) (.nil 0)) (.nil 0)
+    chain4.depth = 4 ∧ chain4.depth ≤ 10 ∧ chain4.size ≤ 10 ∧
+    processExc true 10 10 7 0 chain4 = some "XMLResourceExceeded" ∧
+    processExc false 10 10 7 0 chain4 = some "RecursionError" ∧
+    processExc false 10 10 8 0 chain4 = none := by decide
+
+/-- **the repaired descent never lets a foreign exception out**: for every document, limits and
+    frame budget, what `processExc true` raises is a library error. -/
+theorem guarded_descent_never_foreign (L E tail : Nat) (free : Int) (f : Forest) :
+    processExc true L E free tail f = none ∨ processExc true L E free tail f = some "XMLResourceExceeded" := by
+  unfold processExc
+  cases eagerParse L E f.events <;> simp
+
+/-- … while the pinned descent does, exactly when the document is within the limits and does not
+    fit the stack. -/
+theorem unguarded_descent_foreign_iff (L E tail : Nat) (free : Int) (f : Forest) :
+    processExc false L E free tail f = some "RecursionError" ↔
+      (f.depth ≤ L ∧ f.size ≤ E) ∧ free < (2 * f.depth + tail : Int) := by
+  unfold processExc
+  cases hp : eagerParse L E f.events with
+  | ok =>
+    have hw := (eager_limit_spec L E f).1 hp
+    cases hd : descendFits tail f free with
+    | true =>
+      have := (descendFits_iff tail f free).1 hd
+      simp; omega
+    | false =>
+      have : ¬ (2 * f.depth + tail : Int) ≤ free := fun x => by
+        have := (descendFits_iff tail f free).2 x; simp [hd] at this
+      simp [hw]; omega
+  | depthExceeded =>
+    have : ¬ (f.depth ≤ L ∧ f.size ≤ E) := fun x => by
+      have := (eager_limit_spec L E f).2 x; simp [hp] at this
+    simp [this]
+  | elementsExceeded =>
+    have : ¬ (f.depth ≤ L ∧ f.size ≤ E) := fun x => by
+      have := (eager_limit_spec L E f).2 x; simp [hp] at this
+    simp [this]
+
+/-- the class raised by the repaired descent is the documented resource error of the regenerated
+    hierarchy; RecursionError is foreign -/
+theorem descent_error_classes :
+    (∃ c, lookup "XMLResourceExceeded" = some c ∧ classify (some c) = .libraryError) ∧
+    (∃ c, lookup "RecursionError" = some c ∧ classify (some c) = .foreign) := by decide
+
+example : let f := Forest.cons 1 (.cons 0 (.nil 0) (.cons 2 (.nil 1) (.nil 0))) (.nil 0)
+    descendFits 3 f 7 = true ∧ descendFits 3 f 6 = false ∧ processExc true 2 3 7 3 f = none ∧
+    processExc true 1 3 7 3 f = some "XMLResourceExceeded" := by decide
 
 /-! ### lax and skip never raise (raise_or_collect, shared with C04) -/
 
